@@ -268,7 +268,7 @@ fn ident_frame(rng: &mut TestRng, carrier: usize, chars: &[u8; 8]) -> Vec<u8> {
 
 pub fn run_c08(ctx: &Ctx) -> ! {
     let eval = eval_for("C08");
-    let nrand = ctx.tier.pick(400_000u64, 20_000_000);
+    let nrand = ctx.tier.pick(400_000u64, 60_000_000);
     let reps = ctx.tier.pick(2usize, 16);
     const REP16: [u8; 16] = [0, 1, 2, 26, 27, 31, 32, 33, 47, 48, 49, 57, 58, 59, 62, 63];
     let mut st = parallel(|w, st| {
@@ -546,7 +546,7 @@ fn icao_roundtrip(a: u32) -> Option<String> {
 pub fn run_c04(ctx: &Ctx) -> ! {
     let eval = eval_for("C04");
     let k = ctx.tier.pick(6usize, 200);
-    let nrand = ctx.tier.pick(300_000u64, 12_000_000);
+    let nrand = ctx.tier.pick(300_000u64, 60_000_000);
     let mut st = parallel(|w, st| {
         let mut rng = ctx.rng(4, w as u64);
         let mut idx = 0usize;
@@ -658,7 +658,7 @@ pub fn run_c04(ctx: &Ctx) -> ! {
 pub fn run_c10(ctx: &Ctx) -> ! {
     let eval = eval_for("C10");
     let k = ctx.tier.pick(2usize, 24);
-    let nrand = ctx.tier.pick(400_000u64, 16_000_000);
+    let nrand = ctx.tier.pick(400_000u64, 60_000_000);
     let mut st = parallel(|w, st| {
         let mut rng = ctx.rng(10, w as u64);
         let mut idx = 0usize;
